@@ -182,8 +182,21 @@ Theorem C03_rename_refused : forall w ti n t s q0 i l x d e,
 Proof. exact rename_refused. Qed.
 Print Assumptions C03_rename_refused.
 
-(* from_dict is a sequence of add_child(data) steps ([from_dict_item] calls [op_add]), so
-   C03_add_refused applies to the colliding item; load is not part of this model. *)
+(* from_dict: the item about to be added collides below its parent -> the item, and with it the whole
+   call ([from_dict_items] / [op_from_dict] propagate the first error), is refused; load is not part
+   of this model *)
+Theorem C03_from_dict_item_refused : forall w ti p d e ch t id,
+  WFw w -> get_tree w ti = Some t ->
+  (match e with Some x => Some x | None => calc_id (calc t) d end) = Some id ->
+  sibling_with (forest_of t) p id 0 ->
+  fst (from_dict_item ti p (DI d e ch) w) = Err EUnique.
+Proof. exact from_dict_item_refused. Qed.
+Print Assumptions C03_from_dict_item_refused.
+
+Theorem C03_from_dict_error_propagates : forall ti p x l w err, fst (from_dict_item ti p x w) = Err err ->
+  fst (from_dict_items ti p (x :: l) w) = Err err.
+Proof. exact from_dict_items_err. Qed.
+Print Assumptions C03_from_dict_error_propagates.
 
 (* ---- non-vacuity: each route driven into a collision on a reachable world ---- *)
 Definition c03_dd (z : Z) : dat := D z z z false [z].
@@ -204,5 +217,6 @@ Example C03_nonvacuous :
   fst (step c03_w (OMove 0 2 0 0 BNone)) = Err EUnique /\                             (* move *)
   fst (step c03_w (ORemove 0 3 true false)) = Err EUnique /\                          (* un-nesting *)
   fst (step c03_w (OSetData 0 5 None (Some (DInt 20)) None)) = Err EUnique /\         (* set_data *)
-  fst (step c03_w (OSetData 0 1 None (Some (DInt 30)) (Some true))) = Err EUnique.    (* set_data with clones *)
+  fst (step c03_w (OSetData 0 1 None (Some (DInt 30)) (Some true))) = Err EUnique /\    (* set_data with clones *)
+  fst (step c03_w (OFromDict 0 5 [DI (c03_dd 7) None []; DI (c03_dd 7) None []])) = Err EUnique. (* from_dict *)
 Proof. vm_compute. repeat split. Qed.
